@@ -212,9 +212,9 @@ def run_hyp_part(ctx: Ctx, part: Part, tier: str) -> None:
                 ctx.notes["skipped_time_budget"] += 1
                 return
             if "v" in box and time.monotonic() > box["shrink_deadline"] \
-                    and case != box["case"]:
-                # shrinking budget used up: let every candidate other than the current
-                # minimal failing case pass, so Hypothesis finishes with that case
+                    and case_hash(case) not in box["failing"]:
+                # shrinking budget used up: let every candidate that has not already been
+                # seen failing pass, so Hypothesis finishes with its current minimal case
                 ctx.notes["shrink_budget_exhausted"] += 1
                 return
             v = guarded(part.prop, case, ctx, seen)
@@ -223,6 +223,7 @@ def run_hyp_part(ctx: Ctx, part: Part, tier: str) -> None:
                     box["shrink_deadline"] = time.monotonic() + (
                         45 if tier == "quick" else 400)
                 box["v"], box["case"] = v, case
+                box.setdefault("failing", set()).add(case_hash(case))
                 raise v
 
         try:
